@@ -229,12 +229,15 @@ CHECKS["C02"] = {
     "technique": "same program enumeration with assertions; verdicts of the intra forward checker and of the forward+backward analyzer (all fwd_bwd parameter settings) confronted with explicit-state exploration",
     "design_ref": "DESIGN.md §2 C02",
     "jobs": [{"bin": "e2_prog", "args": ["--family", "num"], "deadline": {"quick": 420, "thorough": 3000}},
-             {"bin": "e2_prog", "args": ["--family", "bool", "--maxn", "2"], "deadline": {"quick": 200, "thorough": 1200}}],
+             {"bin": "e2_prog", "args": ["--family", "bool", "--maxn", "2"], "deadline": {"quick": 200, "thorough": 1200}},
+             {"bin": "c09_inter", "deadline": {"quick": 300, "thorough": 2400}}],
     "rule": ("the C01 program space restricted to programs containing at least one assertion (numeric assert(x<=1), assert(x>=0), assert(x<=y); "
              "bool_assert in the boolean family), each occurrence with its own debug id. For every domain / fixpoint parameter tuple: "
              "intra_fwd_analyzer + intra_checker(assert_property_checker), and intra_forward_backward_analyzer with enable_backward x "
              "max_refine_iterations {0,1,5} x use_refined_invariants + intra_checker. SAFE => no explored execution reaches the assertion with a "
-             "false condition; UNREACHABLE => no explored execution reaches it. Warnings are never judged."),
+             "false condition; UNREACHABLE => no explored execution reaches it. Warnings are never judged. Job 3: the C09 call-graph space with an "
+             "assertion in main: verdicts of the checker interleaved with the top-down inter-procedural analysis (every parameter tuple) and of "
+             "inter_checker on the bottom-up analyzer (every domain pair) against the tabulated concrete oracle."),
     "assumptions": _E2_ASSUME,
     "level_text": "Complete enumeration of the stated program space with an explicit-state oracle for 'violated' and 'reached'.",
     "level_note": "Inter-procedural checkers are exercised by C09/C10.",
@@ -244,13 +247,56 @@ CHECKS["C05"] = {
     "level": "model_checking",
     "technique": "every analysis of the enumerated loop-bearing programs runs under a deterministic fixpoint-iteration budget (hook CRAB_VERIF_TICK); widening chains explored exhaustively over transformer alphabets",
     "design_ref": "DESIGN.md §2 C05",
-    "jobs": [{"bin": "e2_prog", "args": ["--family", "num"], "deadline": {"quick": 420, "thorough": 3000}}],
+    "jobs": [{"bin": "e2_prog", "args": ["--family", "num"], "deadline": {"quick": 420, "thorough": 3000}},
+             {"bin": "c09_inter", "deadline": {"quick": 300, "thorough": 2400}}],
     "rule": ("the C01 program space restricted to programs with a cycle, every domain / fixpoint parameter tuple: the forward analysis must finish "
              "within 20000 fixpoint iterations (ascending + descending, counted by the tick hook placed in the wto cycle loops, the kill/gen "
-             "iterator, the forward-backward refinement loop and the inter-procedural recursion). max.max_fixpoint_ticks reports the maximum observed."),
+             "iterator, the forward-backward refinement loop and the inter-procedural recursion). max.max_fixpoint_ticks reports the maximum observed. "
+             "Job 2: every top-down and bottom-up inter-procedural analysis of the C09 call-graph space (recursive functions, precise recursion "
+             "fixpoints) under a budget of 200000 iterations."),
     "assumptions": ["budget 20000 is >50x the maximum observed on the unchanged tree; a violation is replayable because the budget is an iteration count, not wall-clock time"],
     "level_text": "Complete enumeration of the stated program space; non-termination is a deterministic, replayable verdict.",
     "level_note": "Widening/narrowing soundness clauses (result contains the arguments) are checked at operator level by C03/C04/C08.",
+}
+
+_INTER_SPACE = ("programs main + f(x)->y (+ g(y)->x, + h(v,i)->(z,w) when referenced) built as real cfgs with function declarations and callsites in a real "
+                "call_graph; variable names are shared between all functions on purpose (actuals, formals and outputs cross: y:=g(x), x:=f(y), "
+                "x:=f(x), (y,x):=h(x,y), (v,i):=h(i,v)). main = [m1][call1][m2][call2; assert] over 4 blocks, optionally with a loop around the first "
+                "call (repeated calls with growing contexts); f = straight-line or two-armed (x<=0 / x>=1) body over 7 (11 thorough) statements incl. "
+                "direct recursion y:=f(z) and the call y:=g(x); g from 4 (6) bodies incl. direct recursion with a base case and mutual recursion "
+                "with f; h from 2 (4) bodies. Every combination is enumerated. Oracle: tabulation of the concrete call semantics over the value box "
+                "{-1,0,1} (values clipped to |v|<=4): a context is (function, frame at entry); contexts are explored to a least fixpoint, giving every "
+                "terminating execution inside the box for every recursion depth.")
+
+CHECKS["C09"] = {
+    "level": "model_checking",
+    "technique": "exhaustive enumeration of small call graphs (shared names, recursion, multi-output calls); explicit tabulation of all concrete calling contexts to a fixpoint; every top-down invariant, stored summary and interleaved-checker verdict confronted with it for every parameter tuple",
+    "design_ref": "DESIGN.md §2 C09",
+    "jobs": [{"bin": "c09_inter", "deadline": {"quick": 400, "thorough": 3000}}],
+    "rule": (_INTER_SPACE + " top_down_inter_analyzer on 2 (6) domains x 5 (10) parameter tuples (max_call_contexts in {unbounded,0,1,2}, exact / "
+             "approximate summary reuse, precise / imprecise recursion, only_main_as_entry, widening delay / descending iterations / thresholds) x "
+             "initial value top (and x<=0). Clauses: every state of a context reachable from an entry function is in get_pre/get_post of its block "
+             "(M1-M4, restricted to the variables of that function); for every stored (pre, post) summary and every concrete call whose inputs "
+             "satisfy pre, (inputs, outputs) is in post; SAFE/UNREACHABLE verdicts of the interleaved checker agree with the oracle."),
+    "assumptions": ["functions do not assign their formal inputs (the summary design relates outputs to the formals' final values)",
+                    "uninitialised callee locals are 0 in the oracle: one of the arbitrary values CrabIR allows, so the oracle is a subset of the real behaviours",
+                    "'inputs satisfy the precondition' is decided through the exported views of pre on domains whose export is exact (intervals, zones, octagons)"],
+    "level_text": "Complete enumeration of the stated program space and of the parameter menu; the concrete call semantics is tabulated to a fixpoint (all recursion depths within the box).",
+    "level_note": "Executions whose values leave the box are dropped (the oracle only gets smaller). Functions have at most 2 inputs / 2 outputs.",
+}
+
+CHECKS["C10"] = {
+    "level": "model_checking",
+    "technique": "same call-graph enumeration and tabulated oracle; bottom_up_inter_analyzer with every (summary domain, forward domain) pair: bottom-up summaries vs all terminating concrete calls, top-down invariants vs all reachable states",
+    "design_ref": "DESIGN.md §2 C10",
+    "jobs": [{"bin": "c09_inter", "deadline": {"quick": 400, "thorough": 3000}}],
+    "rule": (_INTER_SPACE + " Restricted to call graphs whose only entry is main (documented limitation of the analyzer). bottom_up_inter_analyzer with "
+             "every ordered pair of summary / forward domain from 2 (4) domains wrapped in abstract_domain (so the generic convert_domains path is "
+             "exercised) x 1 (3) fixpoint parameter tuples. Clauses: get_summary(f) = (top, S): every terminating concrete call (inputs, outputs) "
+             "of f from ANY input valuation is in S; every reachable state is in get_pre/get_post of its block."),
+    "assumptions": ["as C09"],
+    "level_text": "Complete enumeration of the stated program space x domain pairs.",
+    "level_note": "as C09",
 }
 
 CHECKS["C11"] = {
